@@ -178,3 +178,26 @@ MUTANTS += [
     {"id": "C09-benign-write-debug-assert", "prop": "C09", "benign": True,
      "edits": [(R_, _TW_WRITE, _TW_WRITE.replace("        Ok(cur.position() as usize)", "        debug_assert!(cur.position() as usize <= buf.len());\n        Ok(cur.position() as usize)"))]},
 ]
+
+# ---- MEASURE-FALLBACK: the per-character width summed through other adaptors ---------------------------------------------------------
+_FALLBACK_SUM = "                            .map(|c| c.width().unwrap_or(0))\n                            .sum(),"
+MUTANTS += [
+    {"id": "C09-benign-fallback-filter-map", "prop": "C09", "benign": True,
+     "edits": [(R_, _FALLBACK_SUM, "                            .filter_map(|c| c.width())\n                            .sum(),")]},
+    {"id": "C09-benign-fallback-filter-map-fn-item", "prop": "C09", "benign": True,
+     "edits": [(R_, _FALLBACK_SUM, "                            .filter_map(UnicodeWidthChar::width)\n                            .sum(),")]},
+    {"id": "C09-benign-fallback-flat-map", "prop": "C09", "benign": True,
+     "edits": [(R_, _FALLBACK_SUM, "                            .flat_map(|c| c.width())\n                            .sum::<usize>(),")]},
+    {"id": "C09-benign-fallback-map-flatten", "prop": "C09", "benign": True,
+     "edits": [(R_, _FALLBACK_SUM, "                            .map(|c| c.width())\n                            .flatten()\n                            .sum(),")]},
+    {"id": "C09-benign-fallback-unwrap-or-default", "prop": "C09", "benign": True,
+     "edits": [(R_, _FALLBACK_SUM, "                            .map(|c| c.width().unwrap_or_default())\n                            .sum(),")]},
+    {"id": "C09-benign-fallback-two-maps", "prop": "C09", "benign": True,
+     "edits": [(R_, _FALLBACK_SUM, "                            .map(|c| c.width())\n                            .map(|w| w.unwrap_or(0))\n                            .sum(),")]},
+    {"id": "C09-fallback-filter-map-then-one", "prop": "C09", "expect": "MEASURE-FALLBACK",
+     "edits": [(R_, _FALLBACK_SUM, "                            .filter_map(|c| c.width())\n                            .map(|w| w.max(1))\n                            .sum(),")]},
+    {"id": "C09-fallback-filter-map-is-some-count", "prop": "C09", "expect": "MEASURE-FALLBACK",
+     "edits": [(R_, _FALLBACK_SUM, "                            .filter_map(|c| c.width().map(|_| 1))\n                            .sum(),")]},
+    {"id": "C09-fallback-unwrap-or-one", "prop": "C09", "expect": "MEASURE-FALLBACK",
+     "edits": [(R_, _FALLBACK_SUM, "                            .map(|c| c.width().unwrap_or(1))\n                            .sum(),")]},
+]
